@@ -478,6 +478,11 @@ void h_main(void)
 	vg_fail_seen = 0; vg_env_fail = 0; vg_next_after_fail = 0; vg_verdicts = 0; vg_members = 0;
 	vg_ran_test = 0; vg_ran_extract = 0; vg_ran_print = 0; vg_dry = 0; vg_cmd_ret = 1; vg_lists = 0; vg_frees = 0;
 
+#ifdef VG_MC_LETTER
+	/* case split on the command letter (a constant of the code): one group per command */
+	__CPROVER_assume(argc >= 3);
+	if (nondet_bool()) vg_cmd[0] = VG_MC_LETTER; else { vg_cmd[0] = '-'; vg_cmd[1] = VG_MC_LETTER; }
+#endif
 	r = main(argc, vg_argv);                /* error exits (exit(-1)) are checked in vg_exit and end the path there */
 
 	/* ASSUME: the exit status of the process is the low 8 bits of main's return value (POSIX) */
